@@ -24,11 +24,12 @@ import span_shapes  # noqa: E402
 
 (NEW, CLONE, CURRENT, ORCURRENT, DROP, ENTER, DROPGUARD, ENTERED, EXITOWNED, SCOPEBEGIN, SCOPEEND, RECORD, FOLLOWS,
  INSTRUMENT, POLLBEGIN, POLLEND, INTOINNER, SETDEFAULT, CLOSESCOPE, QUERY, INNERACCESS, SWAP, CLONEFUT, WITHCOLL,
- CLONEDROP, CLONEFROM, PDROP, SCOPEENDL, POLLENDL, INSTRCUR) = range(30)
+ CLONEDROP, CLONEFROM, PDROP, SCOPEENDL, POLLENDL, INSTRCUR, EXITOWNEDF, DROPOWNEDF, DROPGUARDF, INSCOPEF) = range(34)
+FAULT_OPS = (EXITOWNEDF, DROPOWNEDF, DROPGUARDF, INSCOPEF)   # the collectors' exit hook is armed to unwind (one shot), op inside catch_unwind
 OPNAMES = ["New", "Clone", "Current", "OrCurrent", "Drop", "Enter", "DropGuard", "Entered", "ExitOwned", "ScopeBegin",
            "ScopeEnd", "Record", "FollowsFrom", "Instrument", "PollBegin", "PollEnd", "IntoInner", "SetDefault", "CloseScope",
            "Query", "InnerAccess", "SpanMutSwap", "CloneFut", "WithCollector", "CloneDrop", "CloneFrom", "PDrop", "ScopeEndL", "PollEndL",
-           "InstrumentCurrent"]
+           "InstrumentCurrent", "ExitOwnedHookPanics", "DropOwnedHookPanics", "DropGuardHookPanics", "InScopeHookPanics"]
 TAGS = {1: "new_span", 2: "clone_span", 3: "try_close", 4: "enter", 5: "exit", 6: "record", 7: "record_follows_from",
         8: "mark:poll-body", 9: "mark:inner-drop", 10: "mark:inner-touched"}
 FUTS = ('f', 'w', 'i')   # Instrumented / WithDispatch<Instrumented> / Instrumented<WithDispatch>
@@ -112,6 +113,13 @@ class Own:
             return g is not None and g[2] == t
         if code == EXITOWNED:
             return self.owned_by(a, t)
+        if code in (EXITOWNEDF, DROPOWNEDF):
+            return k.get(a) == 'h' and self.owned_by(a, t)
+        if code == DROPGUARDF:
+            g = self.find_guard(a)
+            return g is not None and g[2] == t
+        if code == INSCOPEF:
+            return self.readable(a)
         if code == SCOPEBEGIN or code == RECORD:
             return self.readable(a)
         if code == SCOPEEND:
@@ -152,9 +160,11 @@ class Own:
             self.apply([t, SCOPEEND, 0, 0, 0, 0, 0])
         elif code == INSTRCUR:
             self.kinds[a] = 'f'
-        elif code in (DROP, PDROP):
+        elif code in (DROP, PDROP, EXITOWNEDF, DROPOWNEDF):
             self.ents = [x for x in self.ents if x[1] != a]
             del self.kinds[a]
+        elif code == DROPGUARDF:
+            self.ents.remove(self.find_guard(a))
         elif code == ENTER:
             self.ents.append([('g', b), a, t])
         elif code == DROPGUARD:
@@ -191,14 +201,21 @@ WEIGHTS = [(NEW, 12), (CLONE, 9), (CURRENT, 5), (ORCURRENT, 3), (DROP, 8), (ENTE
            (INSTRCUR, 3)]
 
 
-def gen_program(rng, n_main, threads, colls, malformed):
+FAULT_WEIGHTS = [(EXITOWNEDF, 14), (DROPOWNEDF, 7), (DROPGUARDF, 5), (INSCOPEF, 4)]
+
+
+def is_fault(case):
+    return any(o[1] in FAULT_OPS for o in case["ops"])
+
+
+def gen_program(rng, n_main, threads, colls, malformed, fault=False):
     """A random mostly-valid program; if `malformed`, one op rustc would reject is placed at a random position
     (the case ends there).  Returns list of ops [t, code, a, b, c, d, e]."""
     own = Own()
     ops = []
     NH, NG = 7, 6
-    codes = [c for c, _ in WEIGHTS]
-    wts = [w for _, w in WEIGHTS]
+    codes = [c for c, _ in WEIGHTS] + ([c for c, _ in FAULT_WEIGHTS] if fault else [])
+    wts = [(16 if (fault and c == ENTERED) else w) for c, w in WEIGHTS] + ([w for _, w in FAULT_WEIGHTS] if fault else [])
     bad_at = rng.randrange(1, n_main + 1) if malformed else -1
 
     def cand(code, t):
@@ -237,6 +254,14 @@ def gen_program(rng, n_main, threads, colls, malformed):
             return x
         if code == PDROP:
             return [t, PDROP, (rng.choice(hs) if hs else r(NH)), 0, 0, 0, 0]
+        if code in (EXITOWNEDF, DROPOWNEDF):
+            pool = [e[1] for e in own.ents if e[0] == 'o' and e[2] == t] or hs
+            return [t, code, (rng.choice(pool) if pool else r(NH)), 0, 0, 0, 0]
+        if code == DROPGUARDF:
+            gs = [e[0][1] for e in own.ents if isinstance(e[0], tuple) and e[2] == t]
+            return [t, DROPGUARDF, (rng.choice(gs) if gs else r(NG)), 0, 0, 0, 0]
+        if code == INSCOPEF:
+            return [t, INSCOPEF, (rng.choice(hs) if hs else r(NH)), 0, 0, 0, 0]
         if code == INSTRCUR:
             return [t, INSTRCUR, r(NH), r(2), 0, 0, 0]
         if code in (SCOPEENDL, POLLENDL):
@@ -414,6 +439,8 @@ def oracle(case, out):
         if code == CLONEFROM and ids.get(a, 0) > 0 and ids.get(b, 0) > 0 and \
                 creator.get(ids[a] - 1) != creator.get(ids[b] - 1):
             flags.add("clone-from-across-collectors")
+        if code in FAULT_OPS and rec["res"] == 1:
+            flags.add("exit-hook-panicked:" + OPNAMES[code])
         if code == DROPGUARD:
             mine = [e for e in own.ents if e[2] == t]
             if mine and mine[-1][0] != ('g', a):
@@ -432,8 +459,8 @@ def oracle(case, out):
         refs = {NEW: ([op[6]] if op[5] == 2 else []), CLONE: [a], DROP: [a], ENTER: [a], ENTERED: [a], EXITOWNED: [a],
                 SCOPEBEGIN: [a], RECORD: [a], FOLLOWS: [a], INSTRUMENT: [a], POLLBEGIN: [a], INTOINNER: [a],
                 QUERY: [a], INNERACCESS: [a], SWAP: [a, b], CLONEFUT: [a], WITHCOLL: [a], CLONEDROP: [a],
-                CLONEFROM: [a, b]}.get(code)
-        if code == DROPGUARD:
+                CLONEFROM: [a, b], EXITOWNEDF: [a], DROPOWNEDF: [a], INSCOPEF: [a]}.get(code)
+        if code in (DROPGUARD, DROPGUARDF):
             g = own.find_guard(a)
             refs = [g[1]] if g else []
         if code in (SCOPEEND, POLLEND):
@@ -679,7 +706,7 @@ def model_obs(ctx, cases, tag="cases"):
 
 def run(ctx):
     rep = Report(ctx)
-    rep.rule = ("seeded random programs over 30 op kinds (New via span!/direct x root/contextual/&Span/Option<Id>/None parent x enabled?, "
+    rep.rule = ("seeded random programs over 30 (+4 fault) op kinds (New via span!/direct x root/contextual/&Span/Option<Id>/None parent x enabled?, "
                 "Clone, Current, OrCurrent, Drop, Enter/DropGuard in any order, Entered/ExitOwned, in_scope begin/end (return or unwind), "
                 "Record chains incl. missing fields, FollowsFrom &Span/Option<Id>/None, is_none/is_disabled/id/metadata, Instrument "
                 "(tracing / tracing-futures; plain or around a WithDispatch), with_collector / with_current_collector around an "
@@ -687,6 +714,8 @@ def run(ctx):
                 "mem::swap through span_mut, Clone for Instrumented/WithDispatch, drop(x.clone()) written on the holder incl. an EnteredSpan "
                 "guard, clone_from directly / through Box / Option / Vec, in_current_span, holders dropped by a contained panic (PDrop) and "
                 "in_scope / poll bodies that own holders as locals and return or unwind (ScopeEndL / PollEndL), SetDefault/CloseScope) on 1-3 (thorough: 1-6) OS threads, "
+                "in every 4th program also (oracle only, outside the Coq model) EnteredSpan::exit / drop of an EnteredSpan / drop of an Entered / in_scope "
+                "run inside catch_unwind while the collectors' exit callback is armed to panic once, "
                 "2-4 recording collectors (installed directly or behind Box<C> / Arc<C> / Box<dyn Collect> / Arc<dyn Collect>; "
                 "collectors 3 and 4 return a fresh alias id from clone_span and name the current span by the newest unclosed alias; in 35 % of the cases every "
                 "collector numbers its spans from 1, so ids overlap between collectors) + no collector; non-trivial = the program has a clone AND (an out-of-order guard drop OR a "
@@ -755,7 +784,7 @@ def run(ctx):
         cases.append({"id": "r%d" % k, "threads": threads, "collectors": colls, "wraps": wraps,
                       # every collector numbers its spans from 1 (tracing sees overlapping ids); the log stays in global numbers
                       "own_ids": rng.random() < 0.35,
-                      "ops": gen_program(rng, size, threads, colls, malformed)})
+                      "ops": gen_program(rng, size, threads, colls, malformed, fault=(k % 4 == 3))})
     if ctx.replay:
         rp = json.load(open(ctx.replay))
         c = rp.get("case", rp)
@@ -787,7 +816,8 @@ def run(ctx):
     # ---- model
     model = None
     try:
-        model = model_obs(ctx, cases)
+        # the fault ops (a collector whose exit hook unwinds) are outside the Coq model: those programs go to the oracle only
+        model = model_obs(ctx, [c for c in cases if not is_fault(c)])
     except Exception as ex:
         rep.tie("model-eval", False, str(ex)[:300])
     # ---- correspondence + oracle
@@ -833,7 +863,9 @@ def run(ctx):
                 if "clone" in flags and (flags & {"ooo-guard-drop", "fut-dropped-between-polls", "foreign-default",
                                                   "moved-while-entered-elsewhere"}):
                     rep.nontrivial.add(key)
-            if model is not None:
+            if prof == "debug" and is_fault(c):
+                rep.count("fault-programs (oracle only)")
+            if model is not None and c["id"] in model:
                 m_ops, m_ok = model[c["id"]]
                 want_rej = -1 if m_ok else len(m_ops)
                 own_ids = bool(c.get("own_ids"))
@@ -859,7 +891,7 @@ def run(ctx):
                     rep.traces_validated += 1
         if model is not None:
             rep.tie("correspondence:per-op collector calls + produced ids + rejection point [%s]" % prof, not disagree,
-                    "%d of %d programs disagree" % (len(disagree), len(cases)), disagree[:1] or None)
+                    "%d of %d programs disagree" % (len(disagree), len(model)), disagree[:1] or None)
     ex = next((c for c in cases if json.dumps(c["ops"]) in rep.nontrivial), cases[0])
     rep.samples = [{"program": pretty(ex["ops"]), "threads": ex["threads"], "impl_log": [[TAGS[e[2]], e] for o in impl["debug"][ex["id"]]["ops"] for e in o["e"]][:40]}]
     return rep
